@@ -6,6 +6,7 @@ import (
 	"bytes"
 	"encoding/json"
 	"fmt"
+	"sort"
 
 	"github.com/Tom-Johnston/mamba/dawg"
 )
@@ -15,6 +16,24 @@ type dawgCase struct {
 	NilEmpty bool     `json:"empty_word_as_nil,omitempty"`
 	Alpha    string   `json:"probe_alphabet"`
 	ProbeLen int      `json:"probe_len"`
+}
+
+type dawgCaseJSON dawgCase
+
+func (dc dawgCase) MarshalJSON() ([]byte, error) {
+	x := dawgCaseJSON(dc)
+	x.Words, x.Alpha = lat1encAll(dc.Words), lat1enc(dc.Alpha)
+	return json.Marshal(x)
+}
+
+func (dc *dawgCase) UnmarshalJSON(b []byte) error {
+	var x dawgCaseJSON
+	if err := json.Unmarshal(b, &x); err != nil {
+		return err
+	}
+	x.Words, x.Alpha = lat1decAll(x.Words), lat1dec(x.Alpha)
+	*dc = dawgCase(x)
+	return nil
 }
 
 func evalDawgSet(dc dawgCase) *Failure {
@@ -118,7 +137,7 @@ func evalBuilder(bc builderCase) *Failure {
 
 func runC12(c *Ctx) {
 	c.Level = "exploration"
-	c.Rule = "every subset of the 15 words of length <=3 over {a,b} and of the 13 words of length <=2 over {0x00,'m',0xff} (thorough: every subset of size <=6 of the 31 binary words of length <=4) built with New: Lookup on every probe string of length <= maxlen+1 over the alphabet plus a foreign letter, NumberOfWords, accepted language read from the node graph, node count = number of distinct right languages (Myhill-Nerode); every Add sequence of length <=5 over the 7 words of length <=2 (plus nil) through a Builder, error exactly for words not above the last accepted word, result = automaton of the accepted words; non-trivial = word set with >= 2 words / Add sequence with a rejected step"
+	c.Rule = "every subset of the 15 words of length <=3 over {a,b} and of the 13 words of length <=2 over {0x00,'m',0xff} (thorough: every subset of size <=6 of the 31 binary words of length <=4) built with New: Lookup on every probe string of length <= maxlen+1 over the alphabet plus a foreign letter, NumberOfWords, accepted language read from the node graph, node count = number of distinct right languages (Myhill-Nerode); families with root / inner branching 0..80 (256 thorough), with and without the empty word; every Add sequence of length <=5 over the 7 words of length <=2 (plus nil) through a Builder, error exactly for words not above the last accepted word, result = automaton of the accepted words; non-trivial = word set with >= 2 words / Add sequence with a rejected step"
 	u3 := wordsUpTo([]byte("ab"), 3)
 	total := int64(1) << uint(len(u3))
 	c.parFor(total, 64, func(lo, hi int64) {
@@ -177,6 +196,59 @@ func runC12(c *Ctx) {
 		})
 		c.SetCount(fmt.Sprintf("binary_word_sets_len<=4_size<=%d", maxSize), int64(len(sets)))
 	}
+	// wide nodes: a small alphabet never produces a node with many links, so implementations that switch
+	// strategy above a link-count threshold (binary search, tables) need families with branching up to 256
+	maxB := 80
+	if c.Thorough() {
+		maxB = 256
+	}
+	var wide []dawgCase
+	for b := 0; b <= maxB; b++ {
+		letters := make([]byte, b)
+		for i := range letters {
+			letters[i] = byte(i)
+			if maxB < 200 {
+				letters[i] = byte(33 + i) // printable range for readable replay files
+			}
+		}
+		for variant := 0; variant < 6; variant++ {
+			var ws []string
+			if variant&1 == 1 {
+				ws = append(ws, "")
+			}
+			for i, l := range letters {
+				ws = append(ws, string([]byte{l}))
+				switch variant >> 1 {
+				case 1: // every third letter continues with up to 12 second letters (inner nodes that are final and wide)
+					if i%3 == 0 {
+						for j := 0; j < len(letters) && j < 12; j++ {
+							ws = append(ws, string([]byte{l, letters[j]}))
+						}
+					}
+				case 2: // the last letter continues with every letter (wide inner node reached through the last link)
+					if i == len(letters)-1 {
+						for j := range letters {
+							ws = append(ws, string([]byte{l, letters[j]}))
+						}
+					}
+				}
+			}
+			sort.Strings(ws)
+			alpha := string(letters)
+			if len(alpha) > 24 {
+				alpha = alpha[:8] + alpha[len(alpha)/2:len(alpha)/2+8] + alpha[len(alpha)-8:]
+			}
+			wide = append(wide, dawgCase{Words: ws, Alpha: alpha + "~", ProbeLen: 2})
+		}
+	}
+	c.parFor(int64(len(wide)), 4, func(lo, hi int64) {
+		for _, dc := range wide[lo:hi] {
+			dc := dc
+			c.Check(func() *Failure { return evalDawgSet(dc) })
+			c.Nontrivial(1)
+		}
+	})
+	c.SetCount("wide_node_word_sets", int64(len(wide)))
 	// builder histories
 	u2 := wordsUpTo([]byte("ab"), 2)
 	var alphabet []builderStep
